@@ -112,6 +112,8 @@ func checkC17(e *RunEnv) *CheckResult {
 	for _, f := range files {
 		seedFiles = append(seedFiles, Write(f, v1(f)))
 	}
+	// ignored paths whose content equals that of a file which is not ignored
+	seedFiles = append(seedFiles, Write("build/copy-of-a", v1("a")), Write("copy-of-a.log", v1("a")))
 	spec := &Spec{
 		Seeds: []Seed{{"S0+files", seedFiles}, {"S0+files+ignore", append(append([]Step{}, seedFiles...), Write(".goitignore", "build/\n*.log\n"))}},
 		Depth: e.pick(4, 5),
